@@ -10,7 +10,7 @@ import os, sys, subprocess, shutil, json, time, re
 sys.path.insert(0, os.path.dirname(__file__))
 from mutants import M
 
-WS = "/tmp/mutws"
+WS = os.environ.get("MUTWS", "/tmp/mutws")
 def sh(cmd, **kw):
     return subprocess.run(cmd, shell=True, capture_output=True, text=True, **kw)
 
@@ -108,6 +108,17 @@ def main():
     restore()
     with open(f"{WS}/out/last_results.json", "w") as f:
         json.dump(results, f, indent=1)
+    if "--write-results" in args:
+        byname = {m['name']: m for m in M}
+        lines = ["# Sensitivity results (generated by run.py --all --tests --write-results)", "",
+                 "Each mutant is applied to a scratch copy of /repo; `tests` = the repository's own suite with the mutant (p = passed, f = failed; 91p/0f means the mutant is invisible to the existing tests); then the quick tier of the listed checks.", "",
+                 "| mutant | what it does | repo tests | expected to fire | result |", "|---|---|---|---|---|"]
+        for name, st, row in results:
+            mut = byname.get(name, {})
+            exp = ", ".join(mut.get('props', [])) or "nothing (control)"
+            res = "; ".join(f"{k}: {v}" for k, v in row.items() if k != 'tests') if st == 'ran' else st
+            lines.append(f"| {name} | {mut.get('note','')} | {row.get('tests','-')} | {exp} | {res} |")
+        open(os.path.join(os.path.dirname(__file__), "RESULTS.md"), "w").write("\n".join(lines) + "\n")
 
 if __name__ == "__main__":
     main()
